@@ -276,38 +276,66 @@ contract(
 )
 
 
+def _current_stacks(ex, context):
+    ns = ex.getattr(context, "tag_namespace")
+    return ns.concrete["extends"]
+
+
+def _is_outer(ex, v):
+    """Is `v` the stacks object the context held on entry?"""
+    from pyvc.values import SAny
+    return isinstance(v, SAny) and v.t.eq(ex.shared["outer_stacks"].t)
+
+
 def _build(ex, recv, mname, args):
     ex.trace_event("build", args)
+    ex.ghost["built_on_own_stacks"] = z3.BoolVal(not _is_outer(ex, _current_stacks(ex, recv)))
+    if ex.decide(ex.fresh("chain_is_invalid", "bool").t):
+        raise_ = ex.make_repo_exc("TemplateInheritanceError", None)
+        from pyvc.values import RaiseSig
+        raise RaiseSig(raise_)
     return _node(ex, f"base_template!{ex.fresh_n}")
 
 
 def _render_base(ex, recv, mname, args):
     ex.ghost["renders"] = ex.ghost.get("renders", z3.IntVal(0)) + 1
     ex.ghost["last"] = recv.t
-    ex.ghost["stacks_cleared_before_render"] = z3.BoolVal(bool(ex.ghost_objs.get("cleared")))
+    ctx = args[0]
+    ex.ghost["rendered_on_own_stacks"] = z3.BoolVal(not _is_outer(ex, _current_stacks(ex, ctx)))
     return ex.fresh("written", "int")
 
 
-def _clear(ex, recv, mname, args):
-    ex.ghost_objs["cleared"] = True
-    ex.ghost["cleared"] = z3.BoolVal(True)
-    return None
+def _ns_with_outer(ex, name):
+    from pyvc.values import HDict
+    outer = ex.sym("outer_stacks_obj", "any")
+    ex.shared["outer_stacks"] = outer
+    ex.ghost["built_on_own_stacks"] = z3.BoolVal(False)
+    ex.ghost["rendered_on_own_stacks"] = z3.BoolVal(False)
+    return HDict(concrete={"extends": outer})
 
+
+@spec("outer_stacks", None)
+def _outer_stacks(ex):
+    return ex.shared["outer_stacks"]
+
+
+RESTORED = "context.tag_namespace['extends'] is outer_stacks()"
 
 for _meth in ("render_to_output", "render_to_output_async"):
     contract(
         f"liquid2.builtin.tags.extends_tag:ExtendsNode.{_meth}",
         props=["C08", "C09"],
         params={"self": Rec("ExtendsNode", _module="liquid2.builtin.tags.extends_tag", name=NODE, token=Any_),
-                "context": Rec("RenderContext", _module="liquid2.context", template=NODE,
-                               tag_namespace=Opaque(lambda ex, n: __import__("pyvc.values", fromlist=["HDict"]).HDict(concrete={"extends": ex.sym("stacks_obj", "any")}), "ns")),
+                "context": Rec("RenderContext", _module="liquid2.context", template=NODE, tag_namespace=Opaque(_ns_with_outer, "ns")),
                 "buffer": Any_},
         opaque_methods={"_build_block_stacks": _build, "_build_block_stacks_async": _build,
-                        "render_with_context": _render_base, "render_with_context_async": _render_base, "clear": _clear},
+                        "render_with_context": _render_base, "render_with_context_async": _render_base},
         pre=["ghost_init()"],
         post=["False"],    # never returns normally: the child's own text is discarded (StopRender)
         post_exc={"StopRender": ["ghost('renders') == 1",                       # the base template is rendered exactly once ...
-                                 "not ghost('stacks_cleared_before_render')",    # ... with the block stacks in place ...
-                                 "ghost('cleared')"]},                           # ... which are cleared afterwards (C09: nothing survives)
-        raises={"StopRender": "True"},
+                                 "ghost('built_on_own_stacks') and ghost('rendered_on_own_stacks')",   # ... on block stacks that belong to this chain alone ...
+                                 RESTORED],                                      # ... and the enclosing chain's stacks (empty at top level) are back afterwards
+                  # an invalid chain: nothing rendered, the enclosing chain's stacks are back
+                  "TemplateInheritanceError": ["ghost('renders') == 0", RESTORED]},
+        raises={"StopRender": None, "TemplateInheritanceError": None},
     )
